@@ -433,7 +433,13 @@ pub fn execute(script: &[String], prefix: &[usize], id: u64) -> Observation {
             }
         }
         let mut allowed_refusals = r.refused_while_running;
+        // a blank line may be turned down with a message: it is not a command of the GUI
+        let mut allowed_blank = script.iter().filter(|c| c.trim().is_empty()).count();
         for e in &r.obs.errors {
+            if e.contains("Failed to parse command") && allowed_blank > 0 {
+                allowed_blank -= 1;
+                continue;
+            }
             if e.contains("Search is already running") && allowed_refusals > 0 {
                 allowed_refusals -= 1;
                 continue;
@@ -467,6 +473,11 @@ pub fn scripts() -> Vec<(&'static str, Vec<String>)> {
         // a go the GUI sends although a search is running: it may be refused, nothing else may break
         ("go-go!-go!-stop", v(&["go infinite", "go! depth 1", "go! depth 1", "stop", "isready"])),
         ("go-go!-stop-go", v(&["go infinite", "go! infinite", "stop", "go depth 1"])),
+        // an empty line and a blank line are lines like any other (they are not end of input)
+        ("blank-lines", v(&["", "go infinite", "   ", "stop", "isready"])),
+        // a time-limited go on a position whose whole tree is exhausted long before the limit:
+        // it is answered when the depth runs out, and the next go is accepted
+        ("tiny-tree-movetime", v(&["position fen 7k/8/5K2/6Q1/8/8/8/8 w - - 0 1", "go movetime 600000", "go depth 1", "isready"])),
     ]
 }
 
